@@ -59,6 +59,16 @@ ParseTomo(name) == Run(LastComponent(name), 1)
 ParseSid(v, name) == IF v >= 40 THEN NatOf(LastComponent(name)) ELSE Run(LastComponent(name), 2)
 
 -----------------------------------------------------------------------------
+\* list operations performed on the live object between construction and export (cs.hist, at most two):
+\*   [op |-> "remove", cls |-> c, idx |-> <<>>]     remove_feature("class", c)
+\*   [op |-> "select", cls |-> 0, idx |-> <<i1, ...>>]  the rows at these positions, in this order (df[mask], sort_values, iloc)
+\* They change the number of rows and leave non-default row labels behind; an export is positional on the surviving rows.
+ApplyOp(ps, h) == IF h.op = "remove" THEN SelectSeq(ps, LAMBDA p : p.cls # h.cls)
+                  ELSE [k \in 1..Len(h.idx) |-> ps[h.idx[k]]]
+ApplyHist(ps, hist) == IF Len(hist) = 0 THEN ps
+                       ELSE IF Len(hist) = 1 THEN ApplyOp(ps, hist[1])
+                       ELSE ApplyOp(ApplyOp(ps, hist[1]), hist[2])
+
 Rot(p) == FromZXZ(p.e[1], p.e[2], p.e[3])
 Complete(p) == [i \in 1..3 |-> p.x[i] + p.s[i]]
 
@@ -87,10 +97,14 @@ IdsOK(ids, subsets) ==
     /\ Cardinality({subsets[i] : i \in 1..Len(subsets)}) = 2 => \A i \in 1..Len(ids) : (ids[i] % 2 = 1) <=> (subsets[i] = 1)
 
 -----------------------------------------------------------------------------
+\* the list the export sees
+Live == ApplyHist(cs.parts, cs.hist)
+
 Init == cs \in InitCases /\ rel = <<>> /\ back = <<>> /\ pc = "start" /\ op = "init" /\ cid = 0
 
 DoExport == /\ pc = "start" /\ cs.mode = "export"
-            /\ rel' = [i \in 1..Len(cs.parts) |-> ExportP(cs.parts[i], cs.fmt)]
+            /\ Len(Live) >= 1
+            /\ rel' = [i \in 1..Len(Live) |-> ExportP(Live[i], cs.fmt)]
             /\ pc' = "exported" /\ op' = "export" /\ UNCHANGED <<cs, back, cid>>
 
 DoReimport == /\ pc = "exported"
@@ -110,9 +124,10 @@ Spec == Init /\ [][Next]_vars
 
 C03_ExportPose ==
     pc \in {"exported", "reimported"} =>
-        \A i \in 1..Len(rel) :
-            /\ \A k \in 1..3 : rel[i].coord[k] = cs.parts[i].x[k] + cs.parts[i].s[k] /\ rel[i].origin[k][1] = 0
-            /\ Mul(FromCode(rel[i].M), Rot(cs.parts[i])) = Id
+        /\ Len(rel) = Len(Live)
+        /\ \A i \in 1..Len(rel) :
+              /\ \A k \in 1..3 : rel[i].coord[k] = Live[i].x[k] + Live[i].s[k] /\ rel[i].origin[k][1] = 0
+              /\ Mul(FromCode(rel[i].M), Rot(Live[i])) = Id
 
 C03_ImportPose ==
     pc = "imported" =>
@@ -127,9 +142,9 @@ C03_ImportPose ==
 C03_Identity ==
     /\ pc \in {"exported", "reimported"} =>
          \A i \in 1..Len(rel) :
-            /\ rel[i].tomo = cs.parts[i].tomo /\ rel[i].cls = cs.parts[i].cls /\ rel[i].sid = cs.parts[i].sid
-            /\ cs.fmt.named => /\ ParseTomo(rel[i].tomoName) = cs.parts[i].tomo
-                               /\ ParseSid(cs.v, rel[i].partName) = cs.parts[i].sid
+            /\ rel[i].tomo = Live[i].tomo /\ rel[i].cls = Live[i].cls /\ rel[i].sid = Live[i].sid
+            /\ cs.fmt.named => /\ ParseTomo(rel[i].tomoName) = Live[i].tomo
+                               /\ ParseSid(cs.v, rel[i].partName) = Live[i].sid
     /\ pc = "imported" =>
          \A i \in 1..Len(back) :
             /\ back[i].tomo = cs.rin[i].tomo /\ back[i].cls = cs.rin[i].cls /\ back[i].geom3 = cs.rin[i].sid
@@ -137,14 +152,14 @@ C03_Identity ==
                                /\ ParseSid(cs.v, PartName(cs.fmt, cs.rin[i].tomo, cs.rin[i].sid)) = cs.rin[i].sid
 
 C03_HalfSets ==
-    pc \in {"exported", "reimported"} => \A i \in 1..Len(rel) : (rel[i].subset = 1) <=> (cs.parts[i].sid % 2 = 1)
+    pc \in {"exported", "reimported"} => \A i \in 1..Len(rel) : (rel[i].subset = 1) <=> (Live[i].sid % 2 = 1)
 
 C03_RoundTrip ==
     pc = "reimported" =>
         \A i \in 1..Len(back) :
-            /\ back[i].x = Complete(cs.parts[i]) /\ back[i].s = <<0, 0, 0>>
-            /\ FromCode(back[i].R) = Rot(cs.parts[i])
-            /\ back[i].tomo = cs.parts[i].tomo /\ back[i].cls = cs.parts[i].cls /\ back[i].geom3 = cs.parts[i].sid
+            /\ back[i].x = Complete(Live[i]) /\ back[i].s = <<0, 0, 0>>
+            /\ FromCode(back[i].R) = Rot(Live[i])
+            /\ back[i].tomo = Live[i].tomo /\ back[i].cls = Live[i].cls /\ back[i].geom3 = Live[i].sid
 
 -----------------------------------------------------------------------------
 EmitTR == \/ EmitMode # "tr"
